@@ -4,7 +4,7 @@
    caller's hash function.  erase_* : drop zone names, the in-message flag and the vehicle back-reference (what the
    property says the hash ignores); object identity is not represented in the model at all.
    wf_* : every number fits the width of its Go type (always true of Go values) and strings are shorter than 2^64. *)
-From GV Require Import Base.Prelude Base.Codec Model.RtTypes Model.Hash Proofs.HashProofs.
+From GV Require Import Base.Prelude Base.Codec Model.RtTypes Model.RtWire Model.Realtime Model.Hash Proofs.HashProofs Proofs.HashResultProofs.
 
 (* same hash input  <->  same data fields (ids, per update: sequence, stop, track, relationship, presence and values of
    arrival/departure time, delay, uncertainty; None is distinguished from Some 0 by the presence byte) *)
@@ -51,6 +51,15 @@ Print Assumptions C13_vehicles_hash_stream_injective.
 Theorem C13_vehicle_flush_discipline : forall v, hash_vehicle v = enc c_vehicle (ve_data v).
 Proof. exact hash_vehicle_stream. Qed.
 Print Assumptions C13_vehicle_flush_discipline.
+
+(* composed with C02 (every identifier of a result carries the configured zone) and C07 (identifiers pairwise distinct): within
+   ONE parsed result, for every message, zone and extension configuration, two trips with the same hash stream are the same trip -
+   the zone name the hash ignores cannot make two of a result's trips collide *)
+Theorem C13_result_trip_hashes_distinct : forall cm tz cfg m t1 t2,
+  In t1 (rt_trips (parse_message cm tz cfg m)) -> In t2 (rt_trips (parse_message cm tz cfg m)) ->
+  wf_trip t1 -> wf_trip t2 -> hash_trip t1 = hash_trip t2 -> t1 = t2.
+Proof. exact result_trip_hashes_distinct. Qed.
+Print Assumptions C13_result_trip_hashes_distinct.
 
 (* what is ignored: zone presentation of equal instants, the in-message flag, Trip.Vehicle / Vehicle.Trip key *)
 Theorem C13_trip_hash_ignores : forall t, hash_trip (erase_trip t) = hash_trip t.
